@@ -129,7 +129,8 @@ pub fn free_run(cfg: &CtrCfg, seqs: &[Vec<u8>], dir: &str, perturb: Option<u64>)
 pub fn free(seed: u64, runs: usize, dir: &str, maxrecs: usize) {
     let mut rng = Rng::new(seed);
     for i in 0..runs {
-        let k = [1usize, 2, 5, 15, 16, 31][i % 6];
+        // the sizes at the corners of the range, and - every other run - any size in it
+        let k = if i % 2 == 0 { [1usize, 2, 5, 15, 16, 31][(i / 2) % 6] } else { 1 + rng.below(31) as usize };
         let n = if i % 7 == 0 { rng.below(3) as usize } else { rng.range(1, maxrecs as u64) as usize };
         let seqs: Vec<Vec<u8>> = (0..n)
             .map(|j| {
